@@ -270,7 +270,7 @@ theorem good_catchPart (i : Nat) {rb : Res} (hasC : Bool) {rc : Unit → Res}
   | fatal => simpa [catchPart] using hb
 
 theorem finPart_nonfatal (i : Nat) {rbc : Res} (rf : Unit → Res) (h : rbc.1 ≠ .fatal) :
-    finPart i rbc rf = ((match (rf ()).1 with | .normal _ => rbc.1.updateEmpty 0 | c => c),
+    finPart i rbc rf = ((match (rf ()).1 with | .normal _ => rbc.1 | c => c).updateEmpty 0,
            Ev.tryE i :: (rbc.2 ++ Ev.finE i :: (rf ()).2)) := by
   obtain ⟨cc, l⟩ := rbc
   cases cc <;> first | rfl | exact absurd rfl h
@@ -298,8 +298,9 @@ theorem good_finPart (i : Nat) {rbc : Res} {rf : Unit → Res}
       simp [List.append_assoc]
     rw [hlog]
     refine Good.map h2 ?_
+    rw [updateEmpty_fatal_iff]
     cases hcf : (rf ()).1 with
-    | normal v => simp [updateEmpty_fatal_iff, hfat]
+    | normal v => simp [hfat]
     | _ => simp
 
 theorem good_tryRes (i : Nat) {rb : Res} (hasC : Bool) {rc : Unit → Res} (hasF : Bool) {rf : Unit → Res}
